@@ -4,7 +4,9 @@
      with corner-valued registers and code placed next to 0 and next to 2^32;
  (b) banking history checker: random histories over the public register API (set/get, set_rmode/get_rmode,
      set_spsr/get_spsr, mode changes, exception entries) with unique written values, audited after every
-     operation against a 30-line sequential bank model."""
+     operation against a 30-line sequential bank model;
+ (c) instructions that name another bank or switch banks (LDM/STM user registers, SRS/RFE, CPS, MSR, exception
+     returns), in every mode, in lock-step with the reference step: the full register file is compared."""
 import random
 from vf.common import use_repo, rng_for
 use_repo()
@@ -14,11 +16,14 @@ LEVEL = 'exploration'
 RULE = ('range part: case = one real step on a word from every ARM/Thumb-32 decoder path or any Thumb-16 word, with '
         'corner-valued registers, in every mode, code at 0x10000 / 0x0 / 0xFFFFFFF0 / 0xFFFFFFFC; banking part: case = '
         'one operation of a 150-operation history over the register API with a full audit of all 43 bank cells after '
-        'every operation; non-trivial = step wrote a register / operation wrote a cell; distinct = (decoder path or '
+        'every operation; instruction part: case = one word of a bank-naming instruction (LDM/STM user registers, SRS, RFE, CPS, '
+        'MSR, exception returns) x mode x configuration stepped in lock-step with the reference, whole register file '
+        'compared; non-trivial = step wrote a register / operation wrote a cell; distinct = (decoder path or '
         'T16 word>>4, executed class, code address class) or (operation kind, register, current mode, target mode)')
 ASSUMPTIONS = ['bank model: R0-R7 one copy; R8-R12 usr/fiq; SP per mode with usr=sys; LR per mode with usr=sys=hyp; '
                'SPSR per exception mode (ARM ARM B1.3.2)',
-               'exception-entry target mode and LR/SPSR values are not judged here (C11), only that nothing else moved']
+               'exception-entry target mode and LR/SPSR values are not judged here (C11), only that nothing else moved',
+               'instruction part: vf/ref transcribes the ARM ARM pseudocode of the bank-naming instructions']
 SHARD_TIMEOUT = {'quick': 900, 'thorough': 7200}
 
 CTXS = [('v6-pmsa-sec', 'off'), ('v7-pmsa-r', 'off'), ('v7-vmsa-sec', 'off'), ('v7-vmsa-virt', 'off'), ('v5-pmsa', 'off'),
@@ -39,6 +44,8 @@ def plan(tier, seed):
                           reps=1 if q else 6))
     for i in range(6 if q else 32):
         specs.append(dict(kind='bank', seed=seed, shard=i, histories=250 if q else 6000))
+    from vf.props import _lock as L
+    specs += L.plan_rows(ID, BANK_FAMILY, tier, seed, 300, 12000, 6, 32)
     return specs
 
 
@@ -294,8 +301,25 @@ def bank_histories(mon, spec):
             mon.res['samples'].append(dict(ctx=list(ctxkey), ns=ns, history=ops[:12]))
 
 
+BANK_FAMILY = ('ldm_user', 'stm_user', 'srs', 'rfe', 'ldm_eret', 'cps', 'msr_sys', 'subs_pc_lr', 'subs_pc_lr_thumb', 'eret')
+
+
 def run_shard(spec):
     from vf import trace_decode as td
+    if spec['kind'] == 'rows':
+        # (c) instructions that name another bank or switch banks (user-bank LDM/STM, SRS/RFE, CPS, MSR, exception
+        # returns) in lock-step with the reference, FIQ and Monitor/Hyp modes included: which copy was written?
+        from vf.props import _lock as L
+
+        def regs(rng):
+            from vf import machine as M
+            v = [M.rand32(rng) for _ in range(15)]
+            for n in range(15):
+                if rng.random() < 0.5:
+                    v[n] = rng.choice([0x100, 0x1000, 0x2000, 0x7F00, 0x10800, 0x11000]) + 4 * rng.randrange(-8, 8)
+            return v
+        return L.run_rows(ID, spec, BANK_FAMILY, ctxs=[('v6-pmsa-sec', 'off'), ('v7-vmsa-sec', 'off'), ('v7-vmsa-virt', 'off'),
+                                                       ('v7-pmsa-r', 'off'), ('v5-pmsa', 'off')], regs_fn=regs)
     mon = Mon(spec)
     rng = mon.rng
     kind = spec['kind']
@@ -356,6 +380,8 @@ def finish(agg, tier, seed):
         inc.append('too few banking audits (%d)' % c.get('audits', 0))
     if c.get('exception_entries', 0) < 500 or c.get('mode_switches', 0) < 2000:
         inc.append('too few mode switches / exception entries')
+    if c.get('ref_ok', 0) < 1500:
+        inc.append('too few bank-naming instructions judged in lock-step (%d)' % c.get('ref_ok', 0))
     if c.get('steps_code_at_address_space_edge', 0) < 5000:
         inc.append('too few steps with code at the edge of the address space')
     return dict(inconclusive=inc, coverage=dict(explanation='held on the sampled steps and histories; nothing exhaustive '
